@@ -151,6 +151,20 @@ def laws(case, method, main, tol, self_tol=None, lo=-1.0, hi=1.0, is_metric=Fals
     permuted = call(method, p1, p2, U.permute_sigma(sigma, perm), case['form1'], case['form2'])
     require_close(permuted, main, '%s after permuting the conditions of both stacks by %s' % (method, perm),
                   'law:permutation:' + tag, rtol=rtol, atol=max(atol, 1e-9) * (2 if sigma is not None else 1))
+    # ... the same permutation carried out by the library on an RDMs object (reorder leaves the
+    # object's 'index' descriptor permuted); the caller permutes sigma_k along with the conditions
+    if method not in ('bures', 'bures_metric'):
+        robj = RDMs(np.array(v1, dtype=float))
+        lib(robj.reorder, np.array(perm), on_error='reject')
+        held = np.array(robj.get_vectors(), dtype=float)
+        if core.close(held, np.array(p1, dtype=float), 0, 0):
+            psig = U.permute_sigma(sigma, perm)
+            skw = {} if method not in WHITE or psig is None else {'sigma_k': np.array(psig, dtype=float)}
+            via_obj = np.asarray(lib(C.compare, robj, np.array(p2, dtype=float), method=method,
+                                     on_error='violation', sig='raises:' + method, **skw), dtype=float)
+            require_close(via_obj, permuted, '%s on an RDMs object reordered in place by %s (sigma_k '
+                          'permuted alike) vs the same permutation applied to plain arrays' % (method, perm),
+                          'law:permutation:reordered-object:' + tag, rtol=1e-9, atol=max(atol, 1e-9))
     # RDMs objects and arrays give the same answer
     as_obj = call(method, v1, v2, sigma, 'rdms', 'rdms')
     as_arr = call(method, v1, v2, sigma, 'array2d', 'array2d')
